@@ -1,12 +1,39 @@
 import HcipyVerif.Model.Proto
+import HcipyVerif.Model.PhaseOptics
 
-/-! Line-protocol front end of the C07 model (stub: not built yet). -/
+/-!
+Line-protocol front end of the C07 model.
+
+```
+C07 coef <family> fwd|bwd <n|->     -> ok κ          exponent coefficient of the multiplier
+C07 magnify m1 m2                   -> ok w d        weight factor |m1 m2| and squared field divisor
+C07 magnifyold m1 m2                -> ok d | err value   (unrepaired: sqrt of the signed product)
+```
+-/
 namespace HcipyVerif.Driver.C07
+open HcipyVerif.Proto HcipyVerif.PhaseOptics
 
 structure St where
   dummy : Unit := ()
 
 def step (st : St) : List String → St × String
+  | ["coef", fam, dir, n] =>
+    let n? : Option Rat := if n == "-" then some 0 else parseRat? n
+    let d? : Option Dir := if dir == "fwd" then some .fwd else if dir == "bwd" then some .bwd else none
+    match parseFamily? fam, d?, n? with
+    | some f, some d, some n => (st, "ok " ++ showRat (coef f d n))
+    | _, _, _ => (st, "bad-op")
+  | ["magnify", m1, m2] =>
+    match parseRat? m1, parseRat? m2 with
+    | some a, some b => (st, s!"ok {showRat (magWeightFactor a b)} {showRat (magDivisorSq a b)}")
+    | _, _ => (st, "bad-op")
+  | ["magnifyold", m1, m2] =>
+    match parseRat? m1, parseRat? m2 with
+    | some a, some b =>
+      match magDivisorSqOld a b with
+      | some d => (st, "ok " ++ showRat d)
+      | none => (st, "err value")
+    | _, _ => (st, "bad-op")
   | _ => (st, "bad-op")
 
 end HcipyVerif.Driver.C07
